@@ -66,9 +66,127 @@ def run(chk, tier, overlays=()):
     chk.require(len(fams) >= 20, "only %d LapackInterface wrapper families found" % len(fams))
     clone(chk, fams)
     workspace(chk, fams)
+    callers(chk, P, fams, overlays)
     chk.floor("CLONE", 30)
     chk.floor("REACHDEF", 40)
+    chk.floor("OPTCHAR", 16)
+    chk.floor("DEFTOL", 3)
     chk.assumptions += ["everything in Factor*.cpp / Eigen.cpp (rank logic, residuals) is numerical and not decided"]
+
+
+CALLER_UNITS = r"SimTKmath/LinearAlgebra/src/(Factor[A-Za-z]*|Eigen)\.cpp$"
+# LAPACK option characters that differ between the real and the complex flavour of a routine (LAPACK documentation):
+# xORM.. take TRANS in {N,T}; xUNM.. take TRANS in {N,C} and reject 'T'.  Everything else accepts the same letters in both flavours.
+OPT_VALID = {("orm", 1): {78, 84}, ("unm", 1): {78, 67}}     # (routine stem, LAPACK argument position of TRANS)
+FIXED_PRECISION = re.compile(r"^SimTK::(SignificantReal|Eps|SqrtEps|TinyReal|LeastPositiveReal|LeastNegativeReal)$")
+
+
+def _forwarded_options(fams):
+    """wrapper name -> {kind: [(param position, routine stem, LAPACK position)]} for `const char&` parameters handed on unchanged"""
+    out = {}
+    for name, ks in fams.items():
+        for k, fl in ks.items():
+            f = fl[0]
+            chars = {p[0]: n for n, p in enumerate(f.d["params"]) if p[1].replace(" ", "") in ("constchar&", "char")}
+            for _, _, e in f.events(lambda e: e["k"] == "call" and LAPACK.match(str(e.get("fn", "")))):
+                for pos, a in enumerate(call_args(e)):
+                    v = var_of(a)
+                    if v in chars:
+                        out.setdefault(name, {}).setdefault(k, []).append((chars[v], e["fn"][1:-1], pos))
+    return out
+
+
+def _char_value(P, f, x, depth=3):
+    """the character an option argument evaluates to in function f: a literal, a local initialised with one, or the result of a
+    (specialised) helper whose every return is one literal; None when it cannot be decided"""
+    if isinstance(x, list) and x and x[0] == "lit" and re.match(r"^-?\d+$", str(x[1])):
+        return int(x[1])
+    if depth <= 0 or not isinstance(x, list) or not x:
+        return None
+    if x[0] in ("cast", "conv") and len(x) > 2:
+        return _char_value(P, f, x[2] if x[0] == "cast" else x[1], depth - 1)
+    if x[0] == "var":
+        ds = [d for _, _, d in f.events(lambda d: d["k"] == "decl" and d["var"] == x[1])]
+        ws = [w for _, _, w in f.events(lambda w: w["k"] == "assign" and var_of(w["lhs"]) == x[1])]
+        if len(ds) == 1 and not ws and ds[0].get("init") is not None:
+            return _char_value(P, f, ds[0]["init"], depth - 1)
+        return None
+    if x[0] == "call":
+        vals = set()
+        for g in P.fns_named(x[1]):
+            for _, _, r in g.events(lambda r: r["k"] == "ret"):
+                vals.add(_char_value(P, g, r.get("val"), depth - 1))
+        return next(iter(vals)) if len(vals) == 1 and None not in vals else None
+    return None
+
+
+def callers(chk, P0, fams, overlays):
+    chk.rule("OPTCHAR", "the option character that reaches a LAPACK routine is one that this flavour of the routine accepts: wrappers hand their `const char&` options on unchanged, "
+             "xORMQR / xORMRZ (real element types) accept TRANS in {N,T}, their complex counterparts xUNMQR / xUNMRZ only {N,C}; every instantiated caller in "
+             "Factor*.cpp / Eigen.cpp must therefore pass, for its element type, a letter of the matching set (decided per instantiation; a local or a specialised helper is followed)")
+    chk.rule("DEFTOL", "default rank tolerance: the constructor and factor() overloads that take only the matrix build their Rep with structurally identical arguments, and no "
+             "element-type template in Factor*.cpp / Eigen.cpp reads a fixed-precision global (SignificantReal, Eps, ...): the tolerance must follow the element type's precision")
+    units = units_matching(CALLER_UNITS)
+    chk.require(len(units) >= 4, "Factor*.cpp / Eigen.cpp not found")
+    P = Program(extract(units, hdr=r"LinearAlgebra/src/.*\.h$", inst=r"Rep<|QTransposeChar|TransposeChar", overlays=overlays))
+    chk.units += units
+    chk.nfunctions += len(P.fns)
+    fwd = _forwarded_options(fams)
+    n = 0
+    for f in sorted(P.all_fns(), key=lambda f: f.id):
+        if f.d.get("tmpl") == "pattern":
+            continue
+        for b, i, e in f.calls():
+            nm = str(e.get("fn", ""))
+            if nm not in fwd:
+                continue
+            sig = str(e.get("fid", ""))
+            k = "c" if "complex<float>" in sig else "z" if "complex<double>" in sig else "s" if re.search(r"\bfloat\b", sig) else "d" if re.search(r"\bdouble\b", sig) else "?"
+            for ppos, stem, lpos in fwd[nm].get(k, []):
+                valid = OPT_VALID.get((stem[:3], lpos))
+                if valid is None:
+                    continue
+                a = call_args(e)
+                if ppos >= len(a):
+                    continue
+                n += 1
+                val = _char_value(P, f, a[ppos])
+                cnt = sum(1 for _b, _i, _e in f.calls() if str(_e.get("fn", "")) == nm and _e["line"] <= e["line"])
+                key = "%s:%s<%s>#%d:trans" % (f.name.replace("SimTK::", ""), nm.split("::")[-1], k, cnt)
+                site = "%s:%d" % (f.file, e["line"])
+                if val is None:
+                    chk.note("OPTCHAR undecided at %s: %s" % (site, sx_str(a[ppos])))
+                    continue
+                chk.judge(val in valid, "OPTCHAR", key, site, "%s%s is given TRANS='%s'; it accepts only %s" % (k, stem, chr(val), sorted(chr(v) for v in valid)))
+    chk.judge(n >= 16, "OPTCHAR", "orthogonal/unitary-factor-call-sites>=16", "", "%d instantiated call sites with a flavour-dependent option" % n)
+    # default tolerance
+    for cls in ("SimTK::FactorQTZ", "SimTK::FactorSVD"):
+        sib = []
+        for f in P.all_fns():
+            if f.cls != cls or f.d.get("tmpl") not in ("pattern",):
+                continue
+            ps = f.d.get("params", [])
+            if len(ps) == 1 and "Matrix_" in ps[0][1] and (f.kind == "ctor" or f.name.endswith("::factor")):
+                news = [sx_find(x, lambda y: y[0] == "new") for _, _, e in f.events() for x in [e.get("x"), e.get("rhs"), e.get("init")] if x is not None]
+                news = [c for cs in news for c in cs]
+                sib.append((f, [sx_str(c) for c in news][:1]))
+        short = cls.split("::")[-1]
+        chk.judge(len(sib) == 2 and sib[0][1] == sib[1][1] and bool(sib[0][1]), "DEFTOL", short + ":ctor(m)~factor(m)", sib[0][0].loc if sib else "",
+                  "constructor and factor() build the Rep with %s / %s" % (sib[0][1] if sib else None, sib[1][1] if len(sib) > 1 else None))
+    bad = 0
+    seen_sites = set()
+    for f in sorted(P.all_fns(), key=lambda f: (f.d.get("tmpl") != "pattern", f.id)):
+        if f.d.get("tmpl") not in ("pattern", "inst"):
+            continue
+        for b, i, e in f.events(lambda e: e["k"] == "gvar" and FIXED_PRECISION.match(str(e.get("var", "")))):
+            if (f.file, e["line"], e["var"]) in seen_sites:
+                continue            # one report per source site, not one per instantiation
+            seen_sites.add((f.file, e["line"], e["var"]))
+            bad += 1
+            chk.violation("DEFTOL", "%s:reads-%s" % (f.name.replace("SimTK::", ""), e["var"].split("::")[-1]), "%s:%d" % (f.file, e["line"]),
+                          "%s is a constant of the library's default (double) precision; in a function templatised on the element type it is wrong for float matrices" % e["var"])
+    if not bad:
+        chk.ok("DEFTOL", "no-fixed-precision-constant-in-element-templates", "", "no element-type template reads SignificantReal / Eps / SqrtEps / TinyReal")
 
 
 def clone(chk, fams):
@@ -156,7 +274,14 @@ def workspace(chk, fams):
 
 
 _L = "SimTKmath/LinearAlgebra/src/LapackInterface.cpp"
+_Q = "SimTKmath/LinearAlgebra/src/FactorQTZ.cpp"
 MUTATIONS = [
+    dict(name="complex QTZ solve asks the unitary routines for 'T' (pre-fix code)", arm=True, file=_Q,
+         old="    const char transQ = QTransposeChar<T>::get(); // 'T' if real, 'C' if complex", new="    const char transQ = 'T';", expect="OPTCHAR:FactorQTZRep<std::complex<double>>::doSolve:ormqr<z>#1"),
+    dict(name="seeded (sub-agent): factor(m) takes its default tolerance from the double-precision constant", file=_Q,
+         old="    int mnmax = (m.nrow() > m.ncol()) ? m.nrow() : m.ncol();\n    rep.reset(new FactorQTZRep<typename CNT<ELT>::StdNumber>(m, mnmax*NTraits<typename CNT<ELT>::Precision>::getSignificant()));\n}\ntemplate < class ELT >\nvoid FactorQTZ::factor( const Matrix_<ELT>& m, double rcond ){",
+         new="    const int mnmax = std::max(m.nrow(), m.ncol());\n    rep.reset(new FactorQTZRep<typename CNT<ELT>::StdNumber>(m, mnmax*SignificantReal));\n}\ntemplate < class ELT >\nvoid FactorQTZ::factor( const Matrix_<ELT>& m, double rcond ){",
+         expect="DEFTOL:FactorQTZ"),
     dict(name="float gelss workspace sized from a constant", arm=True, file=_L,
          old="    int lwork = (int)wsize[0];\n    TypedWorkSpace<float> work(lwork);\n\n    sgelss_", new="    int lwork = 3*mn + 64;\n    TypedWorkSpace<float> work(lwork);\n\n    sgelss_",
          expect="REACHDEF:gelss<s>:sgelss_:lwork<-query"),
